@@ -1,0 +1,29 @@
+// SPDX-License-Identifier: BSL-1.1 OR Apache-2.0
+//! Verification schedule points (compiled only with `--cfg neumann_verif`).
+//!
+//! A test harness may install one process-wide callback; instrumented code calls
+//! [`point`] with a fixed name at the places where a crash or a thread switch is of
+//! interest. Without a callback (and without the cfg) nothing happens.
+
+use std::sync::{Arc, RwLock};
+
+/// Callback type: receives the name of the point that was reached.
+pub type Hook = Arc<dyn Fn(&str) + Send + Sync>;
+
+static HOOK: RwLock<Option<Hook>> = RwLock::new(None);
+
+/// Install (`Some`) or remove (`None`) the process-wide callback.
+pub fn set(hook: Option<Hook>) {
+    *HOOK.write().unwrap_or_else(std::sync::PoisonError::into_inner) = hook;
+}
+
+/// Report that the named point was reached by the calling thread.
+pub fn point(name: &str) {
+    let hook = HOOK
+        .read()
+        .unwrap_or_else(std::sync::PoisonError::into_inner)
+        .clone();
+    if let Some(h) = hook {
+        h(name);
+    }
+}
